@@ -165,7 +165,7 @@ def _fuzz(tier):
     from harness import fuzz_pipelines
     seed = int(os.environ.get('VERIF_SEED', '0') or 0)
     c, f = fuzz_pipelines.search(tier, seed)
-    return c, f, ('%d random pipelines of depth 1..4 (seed %d) over sources of 0..5 examples from 25 operations (map, parallel map, slices, masks, '
+    return c, f, ('%d random pipelines of depth 1..4 (seed %d) over sources of 0..5 examples from 27 operations (map, parallel map, raising map, catch, slices, masks, '
                   'key lists, concatenate, tile, zip, key_zip, items, batch, unbatch, lazy/eager filter, sort, cache, copy, prefetch, '
                   'split/shard, intersperse, snapshots, cached-state queries); complete observation vs the eager reference'
                   % (250 if tier == 'quick' else 2500, seed))
